@@ -46,6 +46,9 @@ def make_record(spec):
         x = x + 50.0 + 0.002 * np.arange(N)
     else:
         y = 1.5 * x + 0.2 * rng.standard_normal(N)
+    amp = float(spec.get("amp", 1.0))        # physical unit of both channels: every clause of the trace specification is scale free
+    if amp != 1.0:
+        x, y = x * amp, y * amp
     return x, y
 
 
@@ -315,7 +318,7 @@ def record_analysis(spec):
                 r = analyze(np.vstack([x, g * x]), fs, spec)
                 for j in idx:
                     hg = r.Hxy[j] / g
-                    ev.append({"t": "gain", "hg": [qc(hg.real), qc(hg.imag)], "coh": qc(float(r.coh[j]))})
+                    ev.append({"t": "gain", "hg": [qc(hg.real), qc(hg.imag)], "coh": qc(float(r.coh[j])), "dead": int(float(r.S2[j]) == 0.0)})
             elif kind == "delay":
                 d = var[1]
                 xw = np.random.default_rng(spec["seed"] + 99).standard_normal(spec["N"] + d)     # broadband, no trend: a true delay
@@ -323,6 +326,25 @@ def record_analysis(spec):
                 for j in idx:
                     ph = -2 * math.pi * float(r.f[j]) * d / fs
                     hh = r.Hxy[j]
-                    ev.append({"t": "delay", "d": d, "L": int(r.L[j]), "h": [qc(hh.real), qc(hh.imag)], "cp": qc(math.cos(ph)), "sp": qc(math.sin(ph))})
+                    ev.append({"t": "delay", "d": d, "L": int(r.L[j]), "h": [qc(hh.real), qc(hh.imag)], "cp": qc(math.cos(ph)), "sp": qc(math.sin(ph)), "tight": 0})
+            elif kind == "delaysingle":
+                # single-bin requests by resolution (fs/fres not an integer) on a long white record delayed by d = L/32 samples:
+                # with K > 3000 segments the phase scatter is sqrt(d/(L K)) < 0.0035 rad, and for a symmetric window the expected
+                # cross spectrum is exp(-i w d) times a positive number, so the phase AT THE REPORTED FREQUENCY is -2 pi f d/fs
+                import speckit
+                rngd = np.random.default_rng(spec["seed"] + 41)
+                for _ in range(var[1]):
+                    Lr = int(rngd.choice([64, 96, 128]))
+                    d = Lr // 32
+                    xw = rngd.standard_normal(100000 + d)
+                    an = speckit.SpectrumAnalyzer(np.vstack([xw[d:], xw[:-d]]), fs, order=spec["order"], win="hann", olap=0.5,
+                                                  backend=spec["backend"] if spec["backend"] != "cuda" else "numba")     # (the CUDA simulator is too slow for 1e5 samples)
+                    delta = float(rngd.uniform(0.3, 0.45)) * (1 if rngd.random() < 0.5 else -1)
+                    fq = float(rngd.uniform(2.0, 3.0)) * fs / (2 * math.pi)
+                    r = an.compute_single_bin(fq, fres=fs / (Lr + delta))
+                    ph = -2 * math.pi * float(r.f[0]) * d / fs
+                    hh = r.Hxy[0]
+                    ev.append({"t": "delay", "d": d, "L": int(r.L[0]), "h": [qc(hh.real), qc(hh.imag)], "cp": qc(math.cos(ph)), "sp": qc(math.sin(ph)),
+                               "tight": int(int(r.K[0]) >= 3000 and int(r.L[0]) >= 32 * d)})
     meta = dict(spec, nf=nf)
     return {"meta": meta, "c": {"nf": nf}, "ev": ev}
